@@ -84,7 +84,7 @@ class Contract:
     def __init__(self, qual, *, params=None, requires=(), ensures=(), modifies=(), loops=None, raises=None,
                  result=None, short=None, setup=None, replay=None, ghost=None, ghost_at=None, lets=None,
                  frame_fields=None, trusted=False, note="", raises_iff=False, prop=None, inline=(), region=None,
-                 ensures_raise=None, variant=None, witness=None, ghost_entry=(), decreases=None, ghost_exit=(), creates=None, ghost_after=None):
+                 ensures_raise=None, variant=None, witness=None, ghost_entry=(), decreases=None, ghost_exit=(), creates=None, ghost_after=None, axioms=()):
         self.qual = qual
         self.params = params or {}
         self.requires = list(requires)
@@ -116,6 +116,7 @@ class Contract:
         self.ghost_exit = list(ghost_exit)
         self.creates = creates or {}
         self.ghost_after = ghost_after or {}
+        self.axioms = list(axioms)
 
     # ---- spec evaluation
     def spec_frame(self, fr):
@@ -583,6 +584,8 @@ class PyvcExecutor(StmtMixin, Executor):
             st.ghost[k] = self.ev(parse_spec(v), st, c.spec_frame(fr))
         for k, v in c.lets.items():
             st.locals[k] = self.ev(parse_spec(v), st, c.spec_frame(fr))
+        for ax in c.axioms:
+            st.pc.append(ax)        # revealed definitions local to this function's proof
         n_before = len(st.pc)
         reqs = []
         for r in c.requires:
